@@ -313,3 +313,15 @@ for active in (0, 1):
                   "iff(result is True, (_act is not None and name == _act._name) or any(name == x._name for x in _bgs))")
         c.ensures('answers-yes-or-no', 'result is True or result is False')
         c.ensures('touches-nothing', "self._active_agent is old(self._active_agent) and same_agents(self._queue, old(self._queue)) and len(self._background) == len(old(self._background))")
+
+
+# ---- clear_queue (stop-all clears the queue first): the waiting jobs are dropped, the running ones are not touched
+c = contract(JC, 'JobControl.clear_queue', serves=['C08', 'C09', 'C20'])
+def _setup(b, case):
+    jc, q, act = job_control(b, case['q'], case['active'], nbg=1)
+    return {'self': jc}
+c.setup(_setup)
+c.cases([{'q': 0, 'active': 0}, {'q': 'any+', 'active': 1}, {'q': 'any+', 'active': 0}, {'q': 2, 'active': 1}])
+c.ensures('nothing-waits-any-more', 'len(self._queue) == 0')
+c.ensures('running-jobs-untouched', "self._active_agent is old(self._active_agent) and len(self._background) == len(old(self._background)) "
+          "and len(ghost('started')) == 0 and len(ghost('stop_requests')) == 0")
